@@ -31,6 +31,15 @@ CHECKS = {
              "model's emission sequence, footer = status, identical bytes on buffer/stream/file, silence when verbose is off, configuration header = internal problem facts, "
              "last row = returned solution to print precision.", "5/C20", IPM_NOTE,
          "TLA+ model checking (TLC) + trace validation of captured output against Print.tla / Trace_IPM"),
+ "C12": (MC, "Qdldl.tla computes, over exact rationals, the outcome of every factorisation (error kind, fill pattern of L, L, D, inertia, regularisation count, solution of Ax=b) "
+             "and of every update/scale/offset/refactor history for all small matrices incl. structurally missing entries, all permutation vectors (valid or not), D-sign vectors and "
+             "regularisation settings; every behaviour is replayed into the real engine and compared; refactor is compared bit-for-bit with a fresh factorisation.",
+         "5/C12", "Trusted base: TLC, Rational.tla, the replayer's float-vs-rational comparison (1e-11 relative). Exhaustive for n<=3 (n=4 slices in thorough); threshold ties are don't-care.",
+         "TLA+ model enumeration (TLC) with spec->impl replay of every behaviour"),
+ "C16": (MC, "Csc.tla gives every public CSC operation a representation invariant (Canonical) and a meaning on the stored-entry map; TLC recomputes the expected result of every recorded call "
+             "(all patterns up to 3x3/4x3, triplet sequences, raw encodings for check_format, block concatenations); MC_Csc checks algebraic laws of the specification itself.",
+         "5/C16", "Trusted base: TLC; integer-valued data (exact f64). Quick samples the enumeration by seed; thorough is exhaustive.",
+         "trace validation of enumerated operation calls against Csc.tla (TLC) + bounded model checking of spec laws"),
 }
 NOT_APPLICABLE = [
  {"property_id": "C13", "reason": "Nesterov-Todd identities are real-analytic identities (square roots, matrix square roots) with no state, history or index structure for a TLA+ model to carry; TLC has no real arithmetic. The structural clause (KKT block = operator used for slack recovery) is decided under C11."},
